@@ -227,6 +227,10 @@ class Order:
                     kind = "ok"
                     if is_result and rv["k"] == "agg" and rv.get("variant") == "Err":
                         kind = "err"
+                    elif is_result and rv["k"] == "use" and rv.get("ops") and op_place(rv["ops"][0]) is not None:
+                        # `return helper(..)` with the helper inlined: the variant is known per copy of the block
+                        if blk.get("known", {}).get(op_place(rv["ops"][0])["l"]) == "Err":
+                            kind = "err"
                     out[b] = kind
             t = blk["term"]
             if t["k"] == "call" and t["dest"]["l"] == 0 and not t["dest"]["p"]:
@@ -687,6 +691,14 @@ class Order:
             res["locals"].add(l)
             if 1 <= l <= body.arg_count:
                 res["params"].add(l)
+            # the value of an inlined helper call: its definition is the assignment in the callee's return block, but
+            # the helper's name still belongs to the slice
+            im = body.__dict__.get("_inl_dest") if hasattr(body, "__dict__") else None
+            if im is None:
+                im = _inlined_dests(body)
+            for t_ in im.get(l, ()):
+                for nme in names(t_):
+                    res["calls"].add(nme)
             for d in body.defs().get(l, []):
                 if d[0] == "assign":
                     rv = d[3]
@@ -790,6 +802,23 @@ def iteration_order(order, body, op):
         else:
             out.add(("other", full))
     return sorted(out)
+
+
+_INL_CACHE = {}
+
+
+def _inlined_dests(body):
+    key = id(body)
+    m = _INL_CACHE.get(key)
+    if m is None or m[0] is not body:
+        d = {}
+        for b in body.reachable():
+            t = body.blocks[b]["term"]
+            if t["k"] == "call" and t.get("inlined") and not t["dest"]["p"]:
+                d.setdefault(t["dest"]["l"], []).append(t)
+        _INL_CACHE[key] = (body, d)
+        m = _INL_CACHE[key]
+    return m[1]
 
 
 def _pkey(e):
